@@ -11,12 +11,12 @@ import (
 type Expr interface{}
 
 type (
-	EIdent  struct{ Name string }
-	EInt    struct{ V string }
-	EStr    struct{ V string }
-	EBool   struct{ V bool }
-	ENil    struct{}
-	EUnary  struct {
+	EIdent struct{ Name string }
+	EInt   struct{ V string }
+	EStr   struct{ V string }
+	EBool  struct{ V bool }
+	ENil   struct{}
+	EUnary struct {
 		Op string
 		X  Expr
 	}
@@ -41,8 +41,8 @@ type (
 		Body     Expr
 		Patterns [][]Expr // optional triggers: forall i int :: {t1, t2} {t3} body
 	}
-	EOld  struct{ X Expr }
-	ELet  struct {
+	EOld struct{ X Expr }
+	ELet struct {
 		Name string
 		Val  Expr
 		Body Expr
